@@ -115,6 +115,8 @@ mod rtcpx {
             Ok(Ok(bytes)) => {
                 if let Some(w) = refuse { return (Some(format!("marshal emitted bytes for a packet that does not fit the format ({})", w)), None); }
                 if bytes.len() % 4 != 0 { return (Some("compound length not a multiple of 4".into()), None); }
+                // an SDES "item" of type 0 is the END marker, not an item: outside the domain, nothing is demanded of the bytes
+                if doms.iter().any(|d| *d == Dom::Lossy("item type 0 is the list terminator")) { return (None, None); }
                 let back = impl_parse_rtcp(bytes);
                 let back = match back { Ok(Ok(b)) => b, other => return (Some(format!("parse(marshal xs) fails: {}", res_class(&other))), None) };
                 if back.len() != v.len() { return (Some(format!("parse(marshal xs) has {} packets, expected {}", back.len(), v.len())), None); }
@@ -308,14 +310,14 @@ mod rtcpx {
         case_wire(cx, "corpus", &[0x81, 202, 0, 3, 0, 0, 0, 1, 1, 4, 0xC3, 0x28, 0xE2, 0x82, 0, 0]);
         case_wire(cx, "corpus", &[0x81, 203, 0, 2, 0, 0, 0, 1, 9, b'a', b'b', b'c']);
         // ---- generated compounds (valid domain), each also parsed back and mutated
-        let n = if thorough { 6000 } else { 360 };
+        let n = if thorough { 3000 } else { 360 };
         for i in 0..n {
             let k = match r.below(6) { 0 | 1 | 2 => 1, 3 => 2, 4 => 3, _ => 4 };
             let v: Vec<RtcpPacket> = (0..k).map(|_| gen_rtcp(r, false)).collect();
             if let Some(b) = case_logical(cx, "random", &v) {
                 case_wire(cx, "random", &b);
                 let muts = mutations(r, &b);
-                if thorough || i % 20 == 0 { for m in &muts { case_wire(cx, "mutated", m); } } else { for _ in 0..2 { let m = r.pick(&muts).clone(); case_wire(cx, "mutated", &m); } }
+                if (thorough && i % 5 == 0) || i % 30 == 0 { for m in &muts { case_wire(cx, "mutated", m); } } else { for _ in 0..2 { let m = r.pick(&muts).clone(); case_wire(cx, "mutated", &m); } }
             }
         }
         // ---- generated compounds beyond the field ranges (must be refused, or lossy in the documented way)
@@ -736,15 +738,15 @@ fn run_rtp(cx: &mut Ctx, r: &mut Rng, thorough: bool) {
     for b in 0..=255u8 { rtp_case_wire(cx, "exhaustive", &[b]); }
     for b in (0..=255u8).filter(|b| thorough || b % 4 == 0 || *b >= 0x80 && *b < 0xC0) { let mut v = vec![b, 0x60, 0, 1, 0, 0, 0, 2, 0, 0, 0, 3]; rtp_case_wire(cx, "exhaustive", &v); v.extend([0xBE, 0xDE, 0, 1, 0x1F, 0, 0, 0, 7, 2]); rtp_case_wire(cx, "exhaustive", &v); }
     // ---- generated logical packets and the mutations of their encodings
-    let n = if thorough { 6000 } else { 300 };
+    let n = if thorough { 3000 } else { 300 };
     for i in 0..n {
         let p = gen_packet(r);
         rtp_case_logical(cx, "random", &p);
         if let Ok(Ok(b)) = impl_marshal(&p) {
             let muts = wire_mutations(r, &p, &b);
             // keep the volume bounded: all mutations for every 6th packet, 3 random ones otherwise
-            if i % 8 == 0 || thorough { for m in &muts { rtp_case_wire(cx, "mutated", m); } }
-            else { for _ in 0..3 { let m = r.pick(&muts).clone(); rtp_case_wire(cx, "mutated", &m); } }
+            if i % 10 == 0 || (thorough && i % 3 == 0) { for m in &muts { rtp_case_wire(cx, "mutated", m); } }
+            else { for _ in 0..2 { let m = r.pick(&muts).clone(); rtp_case_wire(cx, "mutated", &m); } }
         }
     }
     // ---- webrtc-rs serialises, rustrtc parses
@@ -787,7 +789,7 @@ fn run_rtp(cx: &mut Ctx, r: &mut Rng, thorough: bool) {
         cx.push("ref-encoded", term, json!({"op": "RtpPacket::parse(webrtc-rs bytes)", "raw": hex(&bytes), "impl": res_class(&got)}), fail, None, true, format!("R{}", hex(&bytes)));
     }
     // ---- malformed stream: random bytes, version bits forced half of the time
-    let n = if thorough { 6000 } else { 300 };
+    let n = if thorough { 3000 } else { 300 };
     for _ in 0..n {
         let len = match r.below(4) { 0 => r.range(0, 16), 1 => r.range(12, 40), _ => r.range(0, 120) } as usize;
         let mut b = r.bytes(len);
